@@ -4,6 +4,7 @@ import (
 	"errors"
 	"fmt"
 	"net/http"
+	"os"
 	"time"
 
 	"pgregory.net/rapid"
@@ -11,7 +12,7 @@ import (
 
 func init() {
 	register(&CheckDef{ID: "C17", Level: "exploration", Engine: "A", Draw: drawC17,
-		Rule: "workload of 1-6 connections (handshakes in progress and stalled, idle HTTP/1.1 keep-alive, open HTTP/2, HTTP/1.1 exchanges held in flight by a back-end that sleeps 1-3 simulated seconds or parks until released) with the server context cancelled as a controller action at a drawn decision index (including before Serve, and a repeated cancel later), followed by 1-2 clients that attempt to connect after the cancellation. Oracle: no request of a connection attempted after the cancel reaches the back-end; Serve has not returned while a back-end-acknowledged HTTP/1.1 exchange is still unanswered; once none is, Serve returns http.ErrServerClosed with the listener closed within 7 simulated seconds (net/http counts a connection that never sent a request as idle once it is 5 s old); idle and fresh HTTP/1.1 connections are closed. Non-trivial: the cancel fired while at least one connection was open or a late client tried to connect. Distinct: distinct controller action-label sequences."})
+		Rule: "workload of 1-6 connections (handshakes in progress and stalled, idle HTTP/1.1 keep-alive, open HTTP/2, HTTP/1.1 exchanges held in flight by a back-end that sleeps 1-3 simulated seconds or parks until released, and in 40% of the runs by a header injector that parks every request inside the proxy's handler until the controller releases it) with the server context cancelled as a controller action at a drawn decision index (including before Serve, and a repeated cancel later), followed by 1-2 clients that attempt to connect after the cancellation. Oracle: no request of a connection attempted after the cancel reaches the back-end; Serve has not returned while a back-end-acknowledged HTTP/1.1 exchange is still unanswered; once none is, Serve returns http.ErrServerClosed with the listener closed within 7 simulated seconds (net/http counts a connection that never sent a request as idle once it is 5 s old); idle and fresh HTTP/1.1 connections are closed. Non-trivial: the cancel fired while at least one connection was open or a late client tried to connect. Distinct: distinct controller action-label sequences."})
 }
 
 type c17Aux struct {
@@ -86,6 +87,10 @@ func drawC17(t *rapid.T) *Case {
 	}
 	p.Args = []string{"-timeout-tls-handshake", "10s"}
 	p.Fences = drawBool(t, "fences", 30)
+	// requests parked inside the proxy's own handler (at a header injector, which does not watch
+	// the request context): exchanges that stay in flight across the cancel for as long as the
+	// controller likes, whatever the cancellation does to the forwarding
+	p.YieldInjector = drawBool(t, "yieldinjector", 40)
 	p.Tape, p.Tail = drawTape(t, 128)
 	p.Invariant = c17Invariant
 	c := &Case{Plan: p, Metas: metas, Oracle: oracleC17, Aux: aux}
@@ -211,6 +216,15 @@ func oracleC17(w *World, c *Case) {
 		w.Violate("serve_return_late", "serve_return_late", "%s: Serve returned %v after cancel / last in-flight exchange (cancel at %v, last exchange %v, returned at %v)", c.Summary, at-ref, w.CancelledAt, lastExchange, at)
 	}
 	if snap, ok := w.Aux.(map[string]int); ok {
+		if osGetenv("VERIF_C17_DEBUG") != "" {
+			for _, cl := range w.Clients {
+				tot := -1
+				if cl.conn != nil {
+					tot = cl.conn.pair.B.out.total
+				}
+				fmt.Fprintf(os.Stderr, "C17DBG %s: cancel=%v servedone=%v snap=%v now=%d proto=%q hs=%v errs=%v resps=%d\n", cl.Name, w.CancelledAt, at, snap[cl.Name], tot, cl.NegProto, cl.HandshakeOK, cl.StepErrs, len(cl.Resps))
+			}
+		}
 		for ci, cl := range w.Clients {
 			if cl.conn == nil || cl.NegProto == "h2" {
 				continue
